@@ -3,12 +3,14 @@ package main
 import (
 	"bytes"
 	"context"
+	"crypto/sha256"
 	"fmt"
 	"os"
 	"os/exec"
 	"path/filepath"
 	"regexp"
 	"runtime"
+	"sort"
 	"strings"
 	"sync"
 	"sync/atomic"
@@ -167,6 +169,27 @@ func solveAll(vcs []*VC, dir string, timeoutS int, seed int, keep bool) {
 		if vc.rawPrelude == "" && sliceEnabled() {
 			vc.sliceIndexFor() // built once, read-only afterwards
 		}
+	}
+	if fp := os.Getenv("VERIF_FINGERPRINT"); fp != "" {
+		// determinism probe: record name and digest of every query instead of solving, then stop
+		var lines []string
+		for _, j := range jobs {
+			if j.o.Result != "" {
+				continue
+			}
+			lines = append(lines, fmt.Sprintf("%s %x", j.o.Name, sha256.Sum256([]byte(j.vc.render(j.o, "ALL")))))
+			j.o.Result, j.o.Solver = "unsat", "none"
+			if j.o.Cover {
+				j.o.Result = "sat"
+			}
+		}
+		sort.Strings(lines)
+		f, err := os.OpenFile(fp, os.O_APPEND|os.O_CREATE|os.O_WRONLY, 0o644)
+		if err == nil {
+			f.WriteString(strings.Join(lines, "\n") + "\n")
+			f.Close()
+		}
+		return
 	}
 	workers := runtime.NumCPU() / 2
 	if workers < 2 {
